@@ -165,14 +165,18 @@ fn case_rate_and_da(t: &mut Tape, info: &mut CaseInfo) -> Result<(), String> {
         }
         2 | 3 => {
             let r = (t.range(50, 99) as f64) / 100.0;
-            // Daycore has no legacy bit: expressed as HT + clock_rate on the legacy side
-            let ms = if which == 2 {
-                ModsSpec { bits: base_bits | HT, repr: ModRepr::Lazer, extras: vec![LazerExtra::Rate(r)] }
+            // Daycore has no legacy bit: the legacy side expresses it as HT + clock_rate(r)
+            // (clock rate is the only thing either mod contributes to the calculation)
+            if which == 2 {
+                let ms = ModsSpec { bits: base_bits | HT, repr: ModRepr::Lazer, extras: vec![LazerExtra::Rate(r)] };
+                let legacy = Difficulty::new().mods(base_bits | HT).clock_rate(r);
+                (format!("HT(speed_change={r})"), ms, legacy)
             } else {
-                ModsSpec { bits: base_bits | HT, repr: ModRepr::Lazer, extras: vec![LazerExtra::Rate(r)] }
-            };
-            let legacy = Difficulty::new().mods(base_bits | HT).clock_rate(r);
-            (format!("HT(speed_change={r})"), ms, legacy)
+                let default_speed = t.chance(1, 3);
+                let ms = ModsSpec { bits: base_bits, repr: ModRepr::Lazer, extras: vec![LazerExtra::Daycore(if default_speed { None } else { Some(r) })] };
+                let legacy = Difficulty::new().mods(base_bits | HT).clock_rate(if default_speed { 0.75 } else { r });
+                (format!("DC(speed_change={})", if default_speed { "default".to_string() } else { r.to_string() }), ms, legacy)
+            }
         }
         _ => {
             // DifficultyAdjust: one or more values on the f32 grid
@@ -238,7 +242,7 @@ pub fn property() -> Property {
             },
             SubCheck {
                 name: "rate-and-difficulty-adjust",
-                rule: "same maps; lazer DT/NC/HT with speed_change r (1.01..2.00 / 0.50..0.99 step 0.01) vs legacy rate mod + clock_rate(r); lazer DifficultyAdjust{ar,cs,hp,od} on the 0.25 grid in [0,11] vs Difficulty::ar/cs/hp/od(v,false) (fields the mode's DA mod has). Compared: difficulty, strains, performance, attributes().difficulty(&D).build(). Non-trivial: >=2 objects.",
+                rule: "same maps; lazer DT/NC/HT/DC (Daycore: default speed or r) with speed_change r (1.01..2.00 / 0.50..0.99 step 0.01) vs legacy rate mod + clock_rate(r); lazer DifficultyAdjust{ar,cs,hp,od} on the 0.25 grid in [0,11] vs Difficulty::ar/cs/hp/od(v,false) (fields the mode's DA mod has). Compared: difficulty, strains, performance, attributes().difficulty(&D).build(). Non-trivial: >=2 objects.",
                 quick: 15_000,
                 thorough: 100_000,
                 tape_len: 1400,
